@@ -11,6 +11,13 @@
 // and prints the VIOLATION lines.  A sanitizer abort kills the process; the
 // death callback then writes the case that was being executed to --case.
 #pragma once
+#if defined(__has_include)
+#if __has_include(<valgrind/memcheck.h>)
+#include <time.h>
+#include <valgrind/memcheck.h>
+#define VP_HAVE_VALGRIND 1
+#endif
+#endif
 #include <algorithm>
 #include <cinttypes>
 #include <csetjmp>
@@ -141,7 +148,10 @@ struct Stats {
 inline Stats &stats() { static Stats s; return s; }
 static const size_t FP_CAP = 3000000;
 
-inline void count(uint64_t n = 1) { stats().evaluations += n; }
+struct VgState { bool on = false; unsigned long errs = 0; double deadline = 0; bool stopped = false; };
+inline VgState &vg() { static VgState v; return v; }
+inline void vg_poll();
+inline void count(uint64_t n = 1) { stats().evaluations += n; if (vg().on) vg_poll(); }
 inline void cls(const char *name, uint64_t n = 1) { stats().classes[name] += n; }
 inline void cls(const std::string &name, uint64_t n = 1) { stats().classes[name] += n; }
 inline void nontrivial(uint64_t fingerprint) {
@@ -204,6 +214,24 @@ inline void dump_current_case() {
     write_file(args().casefile, t);
 }
 inline void death_cb() { dump_current_case(); }
+// Run under valgrind (unsanitized build; `vg` targets): memcheck sees reads and writes outside heap blocks byte-exactly, whatever the code
+// under test knows about sanitizers. After every evaluation the error counter is polled; a new error is attributed to the case in flight.
+// The run ends (cleanly, "inconclusive beyond this point") when its wall-clock budget is used up: valgrind is 20-50 times slower.
+struct StopRun {};
+inline double now_s() { struct timespec t; clock_gettime(CLOCK_MONOTONIC, &t); return (double)t.tv_sec + (double)t.tv_nsec * 1e-9; }
+inline void vg_poll() {
+#ifdef VP_HAVE_VALGRIND
+    VgState &v = vg();
+    unsigned long e = VALGRIND_COUNT_ERRORS;
+    if (e > v.errs) {
+        v.errs = e;
+        fail("valgrind:memory-error", "memcheck reported an invalid access or a use of uninitialised memory while this case ran (unsanitized build; the report is in the run log)",
+             current().fn ? current().fn() : std::string());
+    }
+    static unsigned calls = 0;
+    if ((++calls & 0x3ff) == 0 && v.deadline > 0 && now_s() > v.deadline && !v.stopped) { v.stopped = true; throw StopRun(); }
+#endif
+}
 // watchdog: SIGALRM every 10 s; if no case was counted for 6 periods in a row the case in flight does not terminate
 struct Watch { volatile uint64_t last = 0; volatile int idle = 0; volatile uint64_t beat = 0; };
 inline Watch &watch() { static Watch w; return w; }
@@ -315,16 +343,30 @@ inline int main_(int argc, char **argv, const Harness &h) {
     if (!a.replay.empty()) {
         std::string text = strip_comments(read_file(a.replay));
         alarm(60);
+#ifdef VP_HAVE_VALGRIND
+        if (RUNNING_ON_VALGRIND) vg().on = true;
+#endif
         bool ok = h.replay(text);
         // a replay may also record failures through the ordinary oracle path
         if (!stats().failures.empty()) ok = false;
+#ifdef VP_HAVE_VALGRIND
+        if (RUNNING_ON_VALGRIND && VALGRIND_COUNT_ERRORS > 0) ok = false;
+#endif
         printf("[replay] %s: %s\n", a.replay.c_str(), ok ? "pass" : "FAIL");
         for (auto &f : stats().failures) printf("[replay]   key=%s %s\n", f.key.c_str(), f.msg.c_str());
         return ok ? 0 : 3;
     }
+#ifdef VP_HAVE_VALGRIND
+    if (RUNNING_ON_VALGRIND) {
+        vg().on = true;
+        const char *b = getenv("VP_VG_SECONDS");
+        vg().deadline = now_s() + (b ? atof(b) : 15.0);
+    }
+#endif
     alarm(10);     // progress watchdog (see sig_cb)
-    h.run();
+    try { h.run(); } catch (const StopRun &) { stats().exhaustive = false; stats().notes["valgrind_budget"] = "wall-clock budget of the valgrind run used up: cases beyond this point were not run (inconclusive, not a violation)"; }
     alarm(0);
+    if (vg().on) { stats().exhaustive = false; stats().notes["valgrind"] = "this target ran the unsanitized build under memcheck (--partial-loads-ok=no)"; }
     write_result();
     return 0;
 }
